@@ -18,7 +18,7 @@ from __future__ import annotations
 
 import collections
 from collections.abc import Sequence
-from typing import TYPE_CHECKING, TypeVar
+from typing import Any, TYPE_CHECKING, TypeVar
 
 import duet
 import pandas as pd
@@ -368,22 +368,15 @@ class Sampler(metaclass=value.ABCMetaImplementAnyOneOf):
         del observables
 
         # Flatten Pauli Sum into one big list of Pauli String
-        # Keep track of which Pauli Sum each one was from.
         flat_pstrings: list[cirq.PauliString] = []
-        pstring_to_psum_i: dict[cirq.PauliString, int] = {}
-        for psum_i, pauli_sum in enumerate(pauli_sums):
+        for pauli_sum in pauli_sums:
             for pstring in pauli_sum:
                 flat_pstrings.append(pstring)
-                pstring_to_psum_i[pstring] = psum_i
 
         # Flatten Circuit Sweep into one big list of Params.
-        # Keep track of their indices so we can map back.
         flat_params: list[cirq.ParamMappingType] = [
             pr.param_dict for pr in study.to_resolvers(params)
         ]
-        circuit_param_to_sweep_i: dict[frozenset[tuple[str, int | tuple[int, int]]], int] = {
-            _hashable_param(param.items()): i for i, param in enumerate(flat_params)
-        }
 
         obs_meas_results = measure_observables(
             circuit=program,
@@ -399,11 +392,19 @@ class Sampler(metaclass=value.ABCMetaImplementAnyOneOf):
         # nesting structure, we place the measured values according to the back-mappings we set up
         # above. We also do the sum operation to aggregate multiple PauliString measured values
         # for a given PauliSum.
-        nested_results: list[list[float]] = [[0] * len(pauli_sums) for _ in range(len(flat_params))]
+        # Equal Pauli strings may occur in several observables and equal parameter assignments
+        # at several sweep points, so the measured values are looked up per (point, term) rather
+        # than sent to "the" observable / sweep point of a result.
+        measured: dict[tuple[Any, cirq.PauliString], float] = {}
         for res in obs_meas_results:
-            param_i = circuit_param_to_sweep_i[_hashable_param(res.circuit_params.items())]
-            psum_i = pstring_to_psum_i[res.setting.observable]
-            nested_results[param_i][psum_i] += res.mean
+            measured[_hashable_param(res.circuit_params.items()), res.setting.observable] = res.mean
+        nested_results: list[list[float]] = [
+            [
+                sum(measured[_hashable_param(param.items()), pstring] for pstring in pauli_sum)
+                for pauli_sum in pauli_sums
+            ]
+            for param in flat_params
+        ]
 
         return nested_results
 
